@@ -361,7 +361,8 @@ add("C15", "X-true-copy-decider-kept", "fixed",
 
 add("C18", "X-pole-neighbour-slots", "fixed",
     "--power-poles substation: medium relay poles out of their own reach used up a substation's five neighbour slots, the next substation 18 tiles away stayed unconnected (two electric networks)",
-    ser.dec(json.load(open(os.path.join(ROOT, "tools", "cases", "C18-pole-neighbour-slots.json")))), commit="c5a7c30")
+    ser.dec(json.load(open(os.path.join(ROOT, "tools", "cases", "C18-pole-neighbour-slots.json")))), commit="c5a7c30",
+    also=["power:unpowered:substation"])  # the same layout also shows the open finding F-pole-coverage
 
 
 def main():
@@ -390,7 +391,7 @@ def main():
         if f["trigger"]:
             ent["trigger"] = f["trigger"]
         if f["also"] or len(sigs) > 1:
-            ent["also"] = sorted(set(f["also"]) | set(sigs[1:]))
+            ent["also"] = sorted(set(f["also"]) | (set(sigs[1:]) if f["status"] == "open" else set()))
         out.append(ent)
         print(f"{f['id']:28s} {f['status']:6s} discard={res.get('discard')} sigs={sigs}")
     with open(path, "w") as fh:
